@@ -276,13 +276,16 @@ pub fn run(ctx: &Ctx) -> Report {
     } else {
         vec![0, 1, 7, 16, 113, (192u64 << 30) - 14]
     };
-    let acc = par_shards(prefixes_s1.len() * na, |i, acc| {
-        let zp = prefixes_s1[i / na];
+    // every start also as a *reused* generator for two of the prefixes (all 31 contexts dirty, then reset())
+    let starts_s1: Vec<(u64, bool)> = prefixes_s1.iter().map(|&z| (z, false)).chain([(0u64, true), (113u64, true)]).collect();
+    let acc = par_shards(starts_s1.len() * na, |i, acc| {
+        let (zp, dirty) = starts_s1[i / na];
         let a0 = i % na;
         let mut path: Vec<Chunk> = vec![];
         fn rec(
             env: &Env,
             zp: u64,
+            dirty: bool,
             g: &Generator,
             r: &Ctph,
             depth: usize,
@@ -296,12 +299,16 @@ pub fn run(ctx: &Ctx) -> Report {
             let mut r2 = r.clone();
             path.push(Chunk { word: word.clone(), count: 1, form });
             if let Some(m) = step(&mut g2, &mut r2, word, form, acc) {
-                acc.violation(sig("S1", zp, path, &|w| env.name(w)), m, case_json(zp, path, None));
+                let mut c = case_json(zp, path, None);
+                c["dirty_start"] = json!(dirty);
+                acc.violation(format!("{}{}", sig("S1", zp, path, &|w| env.name(w)), if dirty { " reused-generator" } else { "" }), m, c);
             } else {
-                one_slice_check(env, "S1", zp, path, &r2, acc);
+                if !dirty {
+                    one_slice_check(env, "S1", zp, path, &r2, acc);
+                }
                 if depth + 1 < 3 {
                     for s in 0..env.alpha.len() {
-                        rec(env, zp, &g2, &r2, depth + 1, s, path, acc);
+                        rec(env, zp, dirty, &g2, &r2, depth + 1, s, path, acc);
                     }
                 } else if sym == 0 {
                     acc.sample(case_json(zp, path, None));
@@ -309,9 +316,9 @@ pub fn run(ctx: &Ctx) -> Report {
             }
             path.pop();
         }
-        let g = start_generator(zp);
+        let g = if dirty { start_generator_dirty(zp) } else { start_generator(zp) };
         let r = Ctph::new(zp);
-        rec(&env, zp, &g, &r, 0, a0, &mut path, acc);
+        rec(&env, zp, dirty, &g, &r, 0, a0, &mut path, acc);
     });
     acc.into_report(&mut rep, "S1_all_sequences_len_le_3");
 
@@ -483,9 +490,11 @@ pub fn run(ctx: &Ctx) -> Report {
         }
     }
     let maxlen = ctx.tier.pick(1500usize, 6000);
-    let acc = par_shards(patterns.len(), |i, acc| {
+    let acc = par_shards(patterns.len() * 2, |ii, acc| {
+        let i = ii / 2;
+        let dirty = ii % 2 == 1;
         let p = &patterns[i];
-        let mut g = Generator::new();
+        let mut g = if dirty { start_generator_dirty(0) } else { Generator::new() };
         let mut r = Ctph::new(0);
         let form = FORMS3[i % 3];
         for n in 0..maxlen {
@@ -493,9 +502,14 @@ pub fn run(ctx: &Ctx) -> Report {
             if let Some(m) = step(&mut g, &mut r, &[c], form, acc) {
                 let whole: Vec<u8> = (0..=n).map(|k| p[k % p.len()]).collect();
                 let ch = vec![Chunk { word: whole, count: 1, form }];
-                acc.violation(format!("S3b pattern={} len={}", hex(p), n + 1), m, case_json(0, &ch, None));
+                let mut cj = case_json(0, &ch, None);
+                cj["dirty_start"] = json!(dirty);
+                acc.violation(format!("S3b pattern={} len={}{}", hex(p), n + 1, if dirty { " reused-generator" } else { "" }), m, cj);
                 return;
             }
+        }
+        if dirty {
+            return;
         }
         // the whole string as one slice + hash_buf
         let whole: Vec<u8> = (0..maxlen).map(|k| p[k % p.len()]).collect();
@@ -546,7 +560,7 @@ pub fn run(ctx: &Ctx) -> Report {
     rep.set("exhaustive_scope", "S1, S2, S3 are enumerated completely within the stated bounds; S4 is supplementary (seeded) and outside the exhaustive claim");
     rep.set(
         "rule",
-        "lock-step enumeration: alphabet = 31 trigger words W0..W30 (7 bytes; W_k ends a piece at levels 0..=k), Z (7 zero bytes), U (roll = 0xFFFFFFFF), F (filler), bytes 00 and 01; S1 = all sequences of length <=3 from new() and zero-prefix starts; S2 = sym1^c1 sym2^c2 [sym3^c3] with every count 1..66 on the way (one-slice re-feed at counts {1,2,31,32,33,63,64,65,66}); S3 = all byte strings over {00,01,FF} up to the tier length, every constant byte and short pattern repeated to every length; forms rotate over update/update_by_iter/update_by_byte/+=slice/+=byte; every step compares finalize, finalize_without_truncation, finalize_raw::<false,64,32>, input_size and the small-size warning with the declarative reference. A case = one prefix; all are distinct by construction; non-trivial = at least one byte fed.",
+        "lock-step enumeration: alphabet = 31 trigger words W0..W30 (7 bytes; W_k ends a piece at levels 0..=k), Z (7 zero bytes), U (roll = 0xFFFFFFFF), F (filler), bytes 00 and 01; S1 = all sequences of length <=3 from new() and zero-prefix starts; S2 = sym1^c1 sym2^c2 [sym3^c3] with every count 1..66 on the way (one-slice re-feed at counts {1,2,31,32,33,63,64,65,66}); S3 = all byte strings over {00,01,FF} up to the tier length, every constant byte and short pattern repeated to every length (on a fresh and on a reused generator: all 31 contexts populated by an earlier input, then reset()); S1 also from reused generators; forms rotate over update/update_by_iter/update_by_byte/+=slice/+=byte; every step compares finalize, finalize_without_truncation, finalize_raw::<false,64,32>, input_size and the small-size warning with the declarative reference. A case = one prefix; all are distinct by construction; non-trivial = at least one byte fed.",
     );
     rep.assume("refmodel::ctph is ssdeep 2.14.1 (bound to 472 libfuzzy vectors and two multi-GiB libfuzzy vectors by the self-test on every run)");
     rep.assume("zero-prefix starts use hook H1 (validated against really feeding zeros at the start of this run)");
